@@ -176,6 +176,14 @@ def sym_task(task):
             for n, cond in w.canaries:
                 if out['canaries'].get(n) == 'refuted':
                     continue
+                # cheap first: the model the explorer already holds refutes the (deliberately wrong) clause in most cases
+                if pm is None and c._model is not None: pm = c._model
+                try:
+                    if pm is not None and z3.is_true(pm.eval(z3.And(*c.solver.assertions()), model_completion=True)) \
+                            and z3.is_false(pm.eval(api.SymWorld._b(cond), model_completion=True)):
+                        out['canaries'][n] = 'refuted'; continue
+                except z3.Z3Exception:
+                    pass
                 v, m = c.prove(api.SymWorld._b(cond), prove_timeout)
                 out['canaries'][n] = 'refuted' if v == 'sat' else out['canaries'].get(n, 'not-refuted')
             if len(out['cross']) < cross_cap:
@@ -320,6 +328,24 @@ def run_property(prop, tier='quick', jobs=None, seed=0, only=None, write_baselin
             with ctxm.Pool(min(jobs, len(sub))) as pool:
                 for r in pool.imap_unordered(sym_task, sub, chunksize=1):
                     results.append(r)
+    # second chance for configurations that ended undecided (solver timeouts are wall-clock: on a loaded machine a query that
+    # normally takes seconds may run out of its budget): re-run them, a few at a time, with four times the budget
+    retry = [i for i, r in enumerate(results) if not r['error'] and (r['undecided'] or any(v != 'refuted' for v in r['canaries'].values()))]
+    if retry and len(retry) <= 40:
+        key = {(t[0], t[1]['name']): t for t in tasks}
+        again = []
+        for i in retry:
+            t = key[(results[i]['group'], results[i]['cfg']['name'])]
+            base_ms = 20000 if tier == 'quick' else 120000
+            again.append((t[0], t[1], t[2], dict(t[3], prove_timeout_ms=4 * base_ms, want_shim=False)))
+        for level in (False, True):
+            sub = [(i, t) for i, t in zip(retry, again) if t[3]['l0'] == level]
+            if sub:
+                with ctxm.Pool(min(4, len(sub))) as pool:
+                    for (i, _), r in zip(sub, pool.map(sym_task, [t for _, t in sub], chunksize=1)):
+                        if not r['error']:
+                            r['shim'] = results[i].get('shim'); r['retried'] = True
+                            results[i] = r
     results.sort(key=lambda r: (r['group'], r['cfg']['name']))
 
     shim_info = next((r['shim'] for r in results if r.get('shim')), [])
